@@ -1,0 +1,203 @@
+//! Verification hooks (only compiled with `--cfg nuts_rs_verif`).
+//!
+//! Re-exports crate-private items and thin accessors so that an external
+//! harness can drive the real code at its internal API boundaries, and
+//! provides schedule points for the parallel sampler. Nothing in here changes
+//! the behaviour of the crate; with the cfg flag off this module does not exist.
+
+use std::sync::atomic::{AtomicBool, Ordering};
+use std::sync::{Arc, RwLock};
+
+pub use crate::adapt_strategy::{CombinedCollector, GlobalStrategy};
+pub use crate::chain::{AdaptStrategy, NutsChain, StatOptions};
+pub use crate::dynamics::{
+    Direction, Hamiltonian, LeapfrogResult, Point, State, StatePool, TransformedHamiltonian,
+    TransformedPoint,
+};
+pub use crate::math::verif_exports as kernels;
+pub use crate::nuts::{Collector, NutsOptions, SampleInfo};
+pub use crate::sampler_stats::{SamplerStats, StatsDims};
+pub use crate::stepsize::verif_exports::*;
+pub use crate::storage::{ChainStorage, StorageConfig, TraceStorage};
+pub use crate::transform::verif_exports::*;
+pub use crate::transform::{ExternalTransformation, Transformation};
+
+use crate::{Math, NutsError};
+
+/// Public wrapper around the crate-private `nuts::draw`.
+pub fn nuts_draw<M, H, R, C>(
+    math: &mut M,
+    init: &mut State<M, H::Point>,
+    rng: &mut R,
+    hamiltonian: &mut H,
+    options: &NutsOptions,
+    collector: &mut C,
+) -> Result<(State<M, H::Point>, SampleInfo), NutsError>
+where
+    M: Math,
+    H: Hamiltonian<M>,
+    R: rand::Rng + ?Sized,
+    C: Collector<M, H::Point>,
+{
+    crate::nuts::draw(math, init, rng, hamiltonian, options, collector)
+}
+
+pub fn logaddexp(a: f64, b: f64) -> f64 {
+    crate::math::logaddexp(a, b)
+}
+
+/// Plain-data copy of a phase space point.
+#[derive(Debug, Clone)]
+pub struct PointParts {
+    pub position: Vec<f64>,
+    pub gradient: Vec<f64>,
+    pub transformed_position: Vec<f64>,
+    pub transformed_gradient: Vec<f64>,
+    pub velocity: Vec<f64>,
+    pub index_in_trajectory: i64,
+    pub logp: f64,
+    pub logdet: f64,
+    pub kinetic_energy: f64,
+    pub energy: f64,
+    pub initial_energy: f64,
+    pub transform_id: i64,
+    pub step_size_factor: f64,
+}
+
+pub fn point_parts<M: Math>(math: &mut M, point: &TransformedPoint<M>) -> PointParts {
+    point.verif_parts(math)
+}
+
+/// Overwrite the velocity of a state that has no other references.
+pub fn set_velocity<M: Math>(
+    math: &mut M,
+    state: &mut State<M, TransformedPoint<M>>,
+    velocity: &[f64],
+) {
+    let point = state.try_point_mut().expect("State has other references");
+    math.read_from_slice(&mut point.velocity, velocity);
+}
+
+// ── diagonal transformation ─────────────────────────────────────────────────
+
+pub fn diag_new<M: Math>(math: &mut M, store_mass_matrix: bool) -> DiagMassMatrix<M> {
+    DiagMassMatrix::new(math, store_mass_matrix)
+}
+
+pub fn diag_set_transform<M: Math>(
+    math: &mut M,
+    matrix: &mut DiagMassMatrix<M>,
+    stds: &[f64],
+    mean: &[f64],
+) {
+    let mut stds_array = math.new_array();
+    math.read_from_slice(&mut stds_array, stds);
+    let mut mean_array = math.new_array();
+    math.read_from_slice(&mut mean_array, mean);
+    matrix.set_transform(math, &stds_array, &mean_array);
+}
+
+pub fn diag_update_grad<M: Math>(
+    math: &mut M,
+    matrix: &mut DiagMassMatrix<M>,
+    position: &[f64],
+    gradient: &[f64],
+    fill_invalid: f64,
+    clamp: (f64, f64),
+) {
+    let mut pos = math.new_array();
+    math.read_from_slice(&mut pos, position);
+    let mut grad = math.new_array();
+    math.read_from_slice(&mut grad, gradient);
+    matrix.update_diag_grad(math, &pos, &grad, fill_invalid, clamp);
+}
+
+/// Scales of a diagonal transformation: (stds, inv_stds, mean, logdet, id).
+pub struct DiagParts {
+    pub stds: Vec<f64>,
+    pub inv_stds: Vec<f64>,
+    pub mean: Vec<f64>,
+    pub logdet: f64,
+    pub id: i64,
+}
+
+pub fn diag_parts<M: Math>(math: &mut M, matrix: &DiagMassMatrix<M>) -> DiagParts {
+    DiagParts {
+        stds: math.box_array(matrix.stds()).into_vec(),
+        inv_stds: math.box_array(matrix.inv_stds()).into_vec(),
+        mean: math.box_array(matrix.mean()).into_vec(),
+        logdet: matrix.logdet(),
+        id: matrix.transformation_id(math),
+    }
+}
+
+pub fn new_draw_grad_collector<M: Math>(math: &mut M) -> DrawGradCollector<M> {
+    DrawGradCollector::new(math)
+}
+
+pub fn set_draw_grad_collector<M: Math>(
+    math: &mut M,
+    collector: &mut DrawGradCollector<M>,
+    draw: &[f64],
+    grad: &[f64],
+    is_good: bool,
+) {
+    math.read_from_slice(&mut collector.draw, draw);
+    math.read_from_slice(&mut collector.grad, grad);
+    collector.is_good = is_good;
+}
+
+pub fn draw_grad_collector_is_good<M: Math>(collector: &DrawGradCollector<M>) -> bool {
+    collector.is_good
+}
+
+// ── schedule points for the parallel sampler ────────────────────────────────
+
+/// Identifiers of the schedule points placed in `sampler.rs`.
+pub mod sched_point {
+    pub const CHAIN_START: u32 = 1;
+    pub const CHAIN_BEFORE_INIT: u32 = 2;
+    pub const CHAIN_LOOP_TOP: u32 = 3;
+    pub const CHAIN_PAUSED: u32 = 4;
+    pub const CHAIN_BEFORE_DRAW: u32 = 5;
+    pub const CHAIN_AFTER_DRAW: u32 = 6;
+    pub const CHAIN_AFTER_RECORD: u32 = 7;
+    pub const CHAIN_BEFORE_TRYRECV: u32 = 8;
+    pub const CHAIN_EXIT: u32 = 9;
+    pub const CTRL_BEFORE_RECV: u32 = 20;
+    pub const CTRL_AFTER_PAUSE_FANOUT: u32 = 21;
+    pub const CTRL_AFTER_RESUME_FANOUT: u32 = 22;
+    pub const CTRL_BEFORE_PROGRESS: u32 = 23;
+    pub const CTRL_BEFORE_INSPECT: u32 = 24;
+    pub const CTRL_BEFORE_FLUSH: u32 = 25;
+    pub const CTRL_DISCONNECTED: u32 = 26;
+    pub const CTRL_FINALIZE: u32 = 27;
+}
+
+type SchedCallback = Arc<dyn Fn(u32, u64, u64) + Send + Sync>;
+
+static SCHED_ACTIVE: AtomicBool = AtomicBool::new(false);
+static SCHED_CALLBACK: RwLock<Option<SchedCallback>> = RwLock::new(None);
+
+/// Install (or remove) the callback that is invoked at every schedule point.
+pub fn set_sched_callback(callback: Option<SchedCallback>) {
+    let mut guard = SCHED_CALLBACK.write().expect("Poisoned sched lock");
+    SCHED_ACTIVE.store(callback.is_some(), Ordering::SeqCst);
+    *guard = callback;
+}
+
+/// A schedule point. `chain` is `u64::MAX` for the controller.
+#[inline]
+pub fn sched(point: u32, chain: u64, draw: u64) {
+    if !SCHED_ACTIVE.load(Ordering::Relaxed) {
+        return;
+    }
+    let callback = SCHED_CALLBACK
+        .read()
+        .expect("Poisoned sched lock")
+        .as_ref()
+        .cloned();
+    if let Some(callback) = callback {
+        callback(point, chain, draw);
+    }
+}
